@@ -75,6 +75,13 @@ def snap_watched():
     out = {}
     for k, v in WATCHED.items():
         out[k] = json.dumps([[x[0], type(x[1]).__name__] if isinstance(x, tuple) else x for x in v], default=str)
+    # class-level tables of every registered class (property names in order, id-contributing properties)
+    import stix2.registry as R
+    for ver, cats in R.STIX2_OBJ_MAPS.items():
+        for cat in ("objects", "observables", "extensions"):
+            for ty, cls in cats[cat].items():
+                out["class:%s/%s/%s" % (ver, cat, ty)] = json.dumps(
+                    [list(cls._properties), list(getattr(cls, "_id_contributing_properties", []) or [])], default=str)
     return out
 CUSTOM_EXT_CLASSES = []
 CUSTOM_EXT = {
@@ -555,6 +562,9 @@ def run_op(op, env, extra):
         import io
         return stix2.parse(io.StringIO(json.dumps(env[op["arg"]], default=str)), allow_custom=op.get("allow_custom", False),
                            version=op.get("version")), extra, ()
+    if o == "same_id":
+        extra["same_id"] = env[op["arg"]]["id"] == env[op["other"]]["id"]
+        return extra["same_id"], extra, ()
     if o == "bundle_dict":
         # a bundle given as a plain dict around caller-held members
         return {"type": "bundle", "id": op["id"], "objects": env[op["arg"]]}, extra, ()
@@ -909,7 +919,7 @@ def run_case(case):
                 mut.append(d)
         sh = shared_with(result, names) if exc is None else []
         o = {"exc": exc, "mut": mut, "shared": sh, "rkind": rkind(result) if exc is None else "exc"}
-        if "refused" in extra or "equal" in extra or "attr_same" in extra or "is_prop" in extra:
+        if "refused" in extra or "equal" in extra or "attr_same" in extra or "is_prop" in extra or "same_id" in extra:
             o["extra"] = {k: v for k, v in extra.items() if k != "msg"}
         if exc is not None and case.get("explain"):
             o["msg"] = extra.get("msg")
